@@ -2,6 +2,7 @@ package formatter
 
 import (
 	"strings"
+	"unicode"
 )
 
 // CanonicalizeSource applies the canonical GlyphLang formatting rules to source
@@ -17,7 +18,16 @@ import (
 //  4. At most one consecutive blank line; leading blank lines are removed.
 //  5. The file ends with exactly one newline (an empty file stays empty).
 func CanonicalizeSource(source string) string {
-	source = strings.TrimPrefix(source, "\ufeff") // strip UTF-8 BOM; the lexer rejects it
+	// Strip UTF-8 BOMs (the lexer rejects them). All of them, and also ones
+	// that only reach the start of the file once leading blank lines are
+	// dropped: stripping just one made a second run change the file again.
+	for {
+		rest := strings.TrimLeftFunc(source, unicode.IsSpace)
+		if !strings.HasPrefix(rest, "\ufeff") {
+			break
+		}
+		source = strings.TrimPrefix(rest, "\ufeff")
+	}
 	source = strings.ReplaceAll(source, "\r\n", "\n")
 	source = strings.ReplaceAll(source, "\r", "\n")
 
